@@ -49,6 +49,11 @@ func plainOps(u unionCase) []sdf.SDF2 {
 		rr := sdf.Transform2D(b, sdf.Translate2d(v2.Vec{X: e[2]}))
 		add(sdf.Intersect2D(l, rr), v2.Vec{X: e[0], Y: e[1]})
 	}
+	if u.Rev {
+		for i, j := 0, len(ops)-1; i < j; i, j = i+1, j-1 {
+			ops[i], ops[j] = ops[j], ops[i]
+		}
+	}
 	return ops
 }
 
